@@ -2,7 +2,7 @@
    lemmas) and followed by Print Assumptions.  All theorems are about the [fixed] variant of the
    model (the code with pending_fixes C10_1..3 applied); the Examples at the end exhibit, inside
    Coq, how the [asis] variant (the code as first found) violates the same statements. *)
-From V Require Import Common.NumFacts C10.Model C10.Proofs.
+From V Require Import Common.NumFacts C10.Model C10.Proofs C10.ProofsDeep.
 
 (* lookup_pure: whatever the earlier lookups, writes, index_overlap / mix_from calls were -- any
    number of them, so that both bounded caches have filled and evicted -- each of the three cached
@@ -360,3 +360,232 @@ Example C10_asis_phase_ellipsis_refuted :
   snd (step asis ex_cfg (mkst [] [] ex_ixs) (OGet 1 k)) = BErr EType /\
   snd (step fixed ex_cfg (mkst [] [] ex_ixs) (OGet 1 k)) = BVal (VVec [1 # 2; 2; 0]).
 Proof. vm_compute. repeat split; reflexivity. Qed.
+
+(* ------------------------------------------------------------------ deepening: value/frame of writes through the mass view
+   and through (..., IDs) *)
+
+(* every write keeps the number of entries *)
+Theorem C10_write_keeps_length : forall cs d ci kd dt k, length (fst (set_sparse cs d ci kd dt k)) = length d.
+Proof. exact set_sparse_length. Qed.
+Print Assumptions C10_write_keeps_length.
+
+(* the mass view, any key and data: afterwards the molar data are (written mass vector) / MW entry by entry, and every
+   entry the write left alone on the mass basis is unchanged on the molar basis *)
+Theorem C10_mass_write_general : forall cs mw d ci kd dt k, length d = length mw -> mw_ok mw ->
+  let m := to_mass mw d in
+  let m' := fst (set_sparse cs m ci kd dt k) in
+  let d' := of_mass mw m' in
+  length d' = length d /\
+  (forall j, (j < length d)%nat -> nthq d' j == nthq m' j / nthq mw j) /\
+  (forall j, nthq m' j = nthq m j -> nthq d' j == nthq d j).
+Proof. exact mass_write_general. Qed.
+Print Assumptions C10_mass_write_general.
+
+(* by_mass()[name] = x: that chemical holds x / MW, no error, nothing else moves *)
+Theorem C10_mass_set_name : forall cs mw d i x, length d = length mw -> mw_ok mw -> (i < length d)%nat ->
+  let d' := of_mass mw (fst (set_sparse cs (to_mass mw d) (COne (Pos i)) (Some 0%nat) (DNum x) (KStr ""))) in
+  snd (set_sparse cs (to_mass mw d) (COne (Pos i)) (Some 0%nat) (DNum x) (KStr "")) = None /\
+  length d' = length d /\ nthq d' i == x / nthq mw i /\ forall j, j <> i -> nthq d' j == nthq d j.
+Proof. exact mass_set_name_lemma. Qed.
+Print Assumptions C10_mass_set_name.
+
+(* by_mass()[ID, ID, ...] = [x, ...] *)
+Theorem C10_mass_set_list : forall cs mw d xs v k, length d = length mw -> mw_ok mw ->
+  existsb is_grp xs = false -> NoDup (poss xs) -> length (poss xs) = length v ->
+  Forall (fun i => (i < length d)%nat) (poss xs) ->
+  let r := set_sparse cs (to_mass mw d) (CMany xs) (Some 3%nat) (DVec v) k in
+  let d' := of_mass mw (fst r) in
+  snd r = None /\ length d' = length d /\
+  Forall2 (fun i x => nthq d' i == x / nthq mw i) (poss xs) v /\
+  forall j, ~ In j (poss xs) -> nthq d' j == nthq d j.
+Proof. exact mass_set_list_lemma. Qed.
+Print Assumptions C10_mass_set_list.
+
+(* by_mass()[group] = x: member j holds x * weight_composition_j / MW *)
+Theorem C10_mass_group_scalar : forall cs mw d l x s c, length d = length mw -> mw_ok mw ->
+  sassoc cs s = Some c -> NoDup l -> length l = length c -> Forall (fun i => (i < length d)%nat) l ->
+  let r := set_sparse cs (to_mass mw d) (COne (Grp l)) (Some 1%nat) (DNum x) (KStr s) in
+  let d' := of_mass mw (fst r) in
+  snd r = None /\ length d' = length d /\
+  (forall j, (j < length l)%nat -> nthq d' (nth j l O) == x * nthq c j / nthq mw (nth j l O)) /\
+  forall j, ~ In j l -> nthq d' j == nthq d j.
+Proof. exact mass_group_scalar_lemma. Qed.
+Print Assumptions C10_mass_group_scalar.
+
+(* multi-phase mass view, (phase, key): the row is the single-phase mass write, every other row is unchanged *)
+Theorem C10_mass_set_row_frame : forall cs mw rows p ci kd dt k m' e,
+  Forall (fun r => length r = length mw) rows -> mw_ok mw -> (p < length rows)%nat ->
+  mat_set cs (map (to_mass mw) rows) (MPair (Some p) ci, Some kd, false) dt k = (m', e) ->
+  let rows' := map (of_mass mw) m' in
+  length rows' = length rows /\
+  nth p rows' [] = of_mass mw (fst (set_sparse cs (to_mass mw (nth p rows [])) ci (Some kd) dt (second k))) /\
+  e = snd (set_sparse cs (to_mass mw (nth p rows [])) ci (Some kd) dt (second k)) /\
+  forall q, q <> p -> (q < length rows)%nat -> forall j, nthq (nth q rows' []) j == nthq (nth q rows []) j.
+Proof. exact mass_set_row_frame_lemma. Qed.
+Print Assumptions C10_mass_set_row_frame.
+
+(* what by_mass()[key] = data does after any history is a function of table, data and key *)
+Theorem C10_mass_write_history_independent : forall c ixs hist i k dt,
+  snd (step fixed c (after c ixs hist) (OSetMass i k dt)) =
+  match nth_error (sixs (after c ixs hist)) i with
+  | Some (IC d) => let (d', e) := write_chem_mass c d k dt in BWr e [d']
+  | Some (IM phs rows) => let (r', e) := write_mat_mass c phs rows k dt in BWr e r'
+  | None => BErr EOther
+  end.
+Proof. exact mass_write_after_history. Qed.
+Print Assumptions C10_mass_write_history_independent.
+
+(* ... and, put together, for a name after any history *)
+Theorem C10_mass_write_name_after_history : forall c ixs hist i d s pos x,
+  nth_error (sixs (after c ixs hist)) i = Some (IC d) ->
+  tget (tb c) s = Some (Pos pos) -> length d = length (mws c) -> mw_ok (mws c) -> (pos < length d)%nat ->
+  exists d', snd (step fixed c (after c ixs hist) (OSetMass i (KStr s) (DNum x))) = BWr None [d'] /\
+    length d' = length d /\ nthq d' pos == x / nthq (mws c) pos /\ forall j, j <> pos -> nthq d' j == nthq d j.
+Proof. exact mass_write_name_after_history. Qed.
+Print Assumptions C10_mass_write_name_after_history.
+
+(* (..., key) is classified as the pair (no phase, chemical index) *)
+Theorem C10_classify_ell_pair : forall t phs x ci kn, hashable x = true -> classify_chem t x = Ok (ci, Some kn) ->
+  classify_mat_h fixed t phs (KTup [KEll; x]) = Ok (MPair None ci, Some kn, false).
+Proof. exact classify_ell_pair. Qed.
+Print Assumptions C10_classify_ell_pair.
+
+(* indexer[..., name] = x: every row holds x at the chemical's position, nothing else moves *)
+Theorem C10_ell_set_name : forall cs rows i x k rows' e, Forall (row_ok i) rows ->
+  mat_set cs rows (MPair None (COne (Pos i)), Some 0%nat, false) (DNum x) k = (rows', e) ->
+  e = None /\
+  Forall2 (fun r r' => length r' = length r /\ nthq r' i = x /\ forall j, j <> i -> nthq r' j = nthq r j) rows rows'.
+Proof. exact ell_set_name_lemma. Qed.
+Print Assumptions C10_ell_set_name.
+
+(* indexer[..., (ID, ...)] = [x, ...] and = x *)
+Theorem C10_ell_set_list : forall cs rows ts v k rows' e,
+  existsb is_grp ts = false -> NoDup (poss ts) -> length (poss ts) = length v -> Forall (rows_ok (poss ts)) rows ->
+  mat_set cs rows (MPair None (CMany ts), Some 3%nat, false) (DVec v) k = (rows', e) ->
+  e = None /\
+  Forall2 (fun r r' => length r' = length r /\ map (nthq r') (poss ts) = v /\
+                       forall j, ~ In j (poss ts) -> nthq r' j = nthq r j) rows rows'.
+Proof. exact ell_set_list_lemma. Qed.
+Print Assumptions C10_ell_set_list.
+
+Theorem C10_ell_set_list_scalar : forall cs rows ts x k rows' e,
+  existsb is_grp ts = false -> NoDup (poss ts) -> Forall (rows_ok (poss ts)) rows ->
+  mat_set cs rows (MPair None (CMany ts), Some 3%nat, false) (DNum x) k = (rows', e) ->
+  e = None /\
+  Forall2 (fun r r' => length r' = length r /\ map (nthq r') (poss ts) = repeat x (length (poss ts)) /\
+                       forall j, ~ In j (poss ts) -> nthq r' j = nthq r j) rows rows'.
+Proof. exact ell_set_list_scalar_lemma. Qed.
+Print Assumptions C10_ell_set_list_scalar.
+
+(* indexer[..., group] = x: distributed by the composition in every row *)
+Theorem C10_ell_group_scalar : forall cs rows l x s c rows' e p,
+  sassoc cs s = Some c -> NoDup l -> length l = length c -> Forall (rows_ok l) rows ->
+  mat_set cs rows (MPair None (COne (Grp l)), Some 1%nat, false) (DNum x) (KTup [p; KStr s]) = (rows', e) ->
+  e = None /\
+  Forall2 (fun r r' => length r' = length r /\
+                       (forall j, (j < length l)%nat -> nthq r' (nth j l O) == x * nthq c j) /\
+                       forall j, ~ In j l -> nthq r' j = nthq r j) rows rows'.
+Proof. exact ell_group_scalar_lemma. Qed.
+Print Assumptions C10_ell_group_scalar.
+
+(* indexer[..., (chemicals and groups)] = [x, ...] *)
+Theorem C10_ell_set_nested : forall cs rows ts v k rows' e p ids,
+  k = KTup [p; ids] ->
+  nested_ok cs ts (key_elems ids) -> length v = length ts -> NoDup (flat_targets ts) ->
+  Forall (rows_ok (flat_targets ts)) rows ->
+  mat_set cs rows (MPair None (CMany ts), Some 2%nat, false) (DVec v) k = (rows', e) ->
+  e = None /\
+  Forall2 (fun r r' => length r' = length r /\ Forall2 (fun t x => tsum r' t == x) ts v /\
+                       forall j, ~ In j (flat_targets ts) -> nthq r' j = nthq r j) rows rows'.
+Proof. exact ell_set_nested_lemma. Qed.
+Print Assumptions C10_ell_set_nested.
+
+(* ... and, put together, for a name after any history *)
+Theorem C10_ell_write_name_after_history : forall c ixs hist i phs rows s pos x,
+  nth_error (sixs (after c ixs hist)) i = Some (IM phs rows) ->
+  tget (tb c) s = Some (Pos pos) -> Forall (row_ok pos) rows ->
+  exists rows', snd (step fixed c (after c ixs hist) (OSet i (KTup [KEll; KStr s]) (DNum x))) = BWr None rows' /\
+    Forall2 (fun r r' => length r' = length r /\ nthq r' pos = x /\ forall j, j <> pos -> nthq r' j = nthq r j) rows rows'.
+Proof. exact ell_write_name_after_history. Qed.
+Print Assumptions C10_ell_write_name_after_history.
+
+(* the hypotheses are met by reachable states: after the 510-key history (both caches evicted) *)
+Example C10_ex_mw_ok : mw_ok (mws ex_cfg).
+Proof.
+  intros i Hi. change (mws ex_cfg) with [16; 32; 8] in *. simpl in Hi.
+  destruct i as [|[|[|i]]]; try lia; unfold nthq; simpl; intros E; discriminate E.
+Qed.
+
+Example C10_deep_mass_nonvacuous :
+  nth_error (sixs (after ex_cfg ex_ixs long_hist)) 0 = Some (IC [1; 2; 4]) /\
+  tget (tb ex_cfg) "cee" = Some (Pos 2) /\ length [1; 2; 4] = length (mws ex_cfg) /\ mw_ok (mws ex_cfg) /\
+  sassoc (wcomps ex_cfg) "G" = Some [32 # 56; 24 # 56] /\
+  snd (step fixed ex_cfg (after ex_cfg ex_ixs long_hist) (OSetMass 0 (KStr "cee") (DNum 16))) = BWr None [[16 # 16; 64 # 32; 16 # 8]] /\
+  snd (step fixed ex_cfg (after ex_cfg ex_ixs long_hist) (OSetMass 0 (KStr "G") (DNum 56))) = BWr None [[16 # 16; 1792 # 1792; 1344 # 448]] /\
+  snd (step fixed ex_cfg (after ex_cfg ex_ixs long_hist) (OSetMass 1 (KTup [KStr "l"; KTup [KStr "C_"; KStr "A_"]]) (DVec [8; 16]))) =
+    BWr None [[16 # 16; 0 # 32; 32 # 8]; [16 # 16; 64 # 32; 8 # 8]].
+Proof. repeat (match goal with |- _ /\ _ => split end); try (vm_compute; reflexivity). exact C10_ex_mw_ok. Qed.
+
+Example C10_deep_ell_nonvacuous :
+  nth_error (sixs (after ex_cfg ex_ixs long_hist)) 1 = Some (IM ["g"; "l"] [[1; 0; 4]; [1 # 2; 2; 0]]) /\
+  Forall (row_ok 2) [[1; 0; 4]; [1 # 2; 2; 0]] /\ Forall (rows_ok [1; 2]%nat) [[1; 0; 4]; [1 # 2; 2; 0]] /\
+  sassoc (comps ex_cfg) "G" = Some [1 # 4; 3 # 4] /\
+  nested_ok (comps ex_cfg) [Pos 0; Grp [1; 2]%nat] (key_elems (KTup [KStr "ay"; KStr "G"])) /\
+  classify_mat fixed (tb ex_cfg) ["g"; "l"] (KList [KEll; KList [KStr "ay"; KStr "G"]]) = Ok (MPair None (CMany [Pos 0; Grp [1; 2]%nat]), Some 2%nat, false) /\
+  snd (step fixed ex_cfg (after ex_cfg ex_ixs long_hist) (OSet 1 (KTup [KEll; KStr "cee"]) (DNum 7))) = BWr None [[1; 0; 7]; [1 # 2; 2; 7]] /\
+  snd (step fixed ex_cfg (after ex_cfg ex_ixs long_hist) (OSet 1 (KTup [KEll; KStr "G"]) (DNum 8))) = BWr None [[1; 8 # 4; 24 # 4]; [1 # 2; 8 # 4; 24 # 4]] /\
+  snd (step fixed ex_cfg (after ex_cfg ex_ixs long_hist) (OSet 1 (KTup [KEll; KTup [KStr "ay"; KStr "G"]]) (DVec [5; 8]))) =
+    BWr None [[5; 8 # 4; 24 # 4]; [5; 8 # 4; 24 # 4]].
+Proof.
+  repeat (match goal with |- _ /\ _ => split end); try (vm_compute; reflexivity).
+  - repeat constructor.
+  - repeat constructor.
+  - apply nok_pos. eapply nok_grp; [vm_compute; reflexivity|reflexivity|vm_compute; reflexivity|apply nok_nil].
+Qed.
+
+(* re-basing (reset_chemicals): every flow is carried to the position its CAS number has in the new package; positions
+   no old chemical maps to are empty *)
+Theorem C10_rebase_carries_flows : forall t' cas ps row n,
+  Forall2 (fun c i => tget t' c = Some (Pos i)) cas ps -> NoDup ps ->
+  Forall (fun i => (i < n)%nat) ps -> length row = length cas ->
+  exists d', remap_row t' cas row (vzero n) = Ok d' /\ length d' = n /\
+    (forall j, (j < length ps)%nat -> nthq d' (nth j ps O) == nthq row j) /\
+    (forall i, ~ In i ps -> nthq d' i = 0).
+Proof. exact remap_row_spec. Qed.
+Print Assumptions C10_rebase_carries_flows.
+
+Example C10_deep_rebase_nonvacuous :
+  Forall2 (fun c i => tget (tb ex_cfg2) c = Some (Pos i)) (cass ex_cfg) [1; 2; 0]%nat /\ NoDup [1; 2; 0]%nat /\
+  Forall (fun i => (i < nchem ex_cfg2)%nat) [1; 2; 0]%nat /\
+  remap_row (tb ex_cfg2) (cass ex_cfg) [1; 0; 3] (vzero (nchem ex_cfg2)) = Ok [3; 1; 0].
+Proof.
+  split; [repeat constructor|]. split; [repeat constructor; simpl; intuition discriminate|].
+  split; [repeat constructor|]. vm_compute. reflexivity.
+Qed.
+
+(* an exact phase letter is found at its own row *)
+Theorem C10_pcall_exact : forall phs q i, index_of q phs = Some i -> pcall phs q = Ok i.
+Proof. exact pcall_exact. Qed.
+Print Assumptions C10_pcall_exact.
+
+(* X.mix_from([X, material in a phase X lacks even up to case]): afterwards every old phase label still names its old row,
+   the new label names the incoming material, and there are no other labels *)
+Theorem C10_mix_phase_rows_by_label : forall n phs rows p v phs' rows' r,
+  length phs = length rows -> NoDup phs -> ~ In p phs -> pcall phs p = Err EUndefPhase ->
+  add_phase_row n phs rows p = (phs', rows', r) ->
+  let rows'' := upd rows' r (vadd (nth r rows' []) v) in
+  length phs' = length rows'' /\
+  row_of phs' rows'' p = vadd (vzero n) v /\
+  (forall q, In q phs -> row_of phs' rows'' q = row_of phs rows q) /\
+  (forall q, In q phs' <-> q = p \/ In q phs).
+Proof. exact mix_phase_new_lemma. Qed.
+Print Assumptions C10_mix_phase_rows_by_label.
+
+Example C10_deep_expand_nonvacuous :
+  NoDup ["l"; "s"] /\ ~ In "g" ["l"; "s"] /\ pcall ["l"; "s"] "g" = Err EUndefPhase /\
+  add_phase_row 3 ["l"; "s"] [[1; 2; 3]; [10; 20; 30]] "g" = (["g"; "l"; "s"], [[0; 0; 0]; [1; 2; 3]; [10; 20; 30]], 0%nat) /\
+  index_of "s" ["g"; "l"; "s"] = Some 2%nat.
+Proof.
+  split; [repeat constructor; simpl; intuition discriminate|]. split; [simpl; intuition discriminate|].
+  repeat split; vm_compute; reflexivity.
+Qed.
